@@ -568,3 +568,241 @@ Proof.
   - intros HU. exists (hd 0 U). apply mk_verdict_fail. split; [|reflexivity]. apply Hk. right. exact HU.
   - intros HU. apply mk_verdict_fail. split; [|reflexivity]. apply Hk. right. exact HU.
 Qed.
+
+(* ---- stop, skip *)
+
+Lemma lines_met_app_all cfg pre n f st st1 :
+  lines_met cfg pre n f st st1 ->
+  forall rest stF, all_met cfg rest (n + length pre) f st1 stF -> all_met cfg (pre ++ rest) n f st stF.
+Proof.
+  induction 1 as [n f st | l0 ls n f st st' Hc0 Hm IH | l0 ls n f st st2 st' Hc0 Hd Hs Hm IH];
+    intros rest stF Ha; simpl in *.
+  - rewrite Nat.add_0_r in Ha. exact Ha.
+  - apply AM_comment; [exact Hc0|]. apply IH. rewrite <- plus_n_Sm in Ha. exact Ha.
+  - eapply AM_line; eauto. apply IH. rewrite <- plus_n_Sm in Ha. exact Ha.
+Qed.
+
+(* stop_passes: when the lines before it meet their demand, a line that stops the script
+   (and meets its own demand) ends the run as passed, whatever follows *)
+Theorem stop_passes cfg pre l post st0 st1 st2 :
+  lines_met cfg pre 0 false st0 st1 -> is_comment l = false ->
+  demand_met cfg (at_line (S (length pre)) false st1) l st2 -> s_stopped st2 = true ->
+  run_lines cfg (pre ++ l :: post) 0 false st0 = (EPass, end_bg st2, []).
+Proof.
+  intros Hm Hc Hd Hs. apply all_met_run.
+  eapply lines_met_app_all; [exact Hm|]. simpl. eapply AM_stop; eauto.
+Qed.
+
+Lemma lines_met_skip_run cfg pre n f st st1 :
+  lines_met cfg pre n f st st1 ->
+  forall l post st2, is_comment l = false ->
+  skip_met cfg (at_line (S (n + length pre)) f st1) l st2 ->
+  run_lines cfg (pre ++ l :: post) n f st = (if f then EFail else ESkip, st2, []).
+Proof.
+  induction 1 as [n f st | l0 ls n f st st' Hc0 Hm IH | l0 ls n f st st2' st' Hc0 Hd Hs Hm IH];
+    intros l post st2 Hc Hk; simpl.
+  - rewrite Hc. simpl in Hk. rewrite Nat.add_0_r in Hk. rewrite (skip_met_run _ _ _ _ Hk). reflexivity.
+  - rewrite Hc0. simpl in Hk. rewrite <- plus_n_Sm in Hk. apply IH; auto.
+  - rewrite Hc0. rewrite (demand_met_run _ _ _ _ Hd), Hs. simpl in Hk. rewrite <- plus_n_Sm in Hk. apply IH; auto.
+Qed.
+
+(* skip_skips: when the lines before it meet their demand, a line that leaves through
+   T.Skip ends the run as skipped, whatever follows *)
+Theorem skip_skips cfg pre l post st0 st1 st2 :
+  lines_met cfg pre 0 false st0 st1 -> is_comment l = false ->
+  skip_met cfg (at_line (S (length pre)) false st1) l st2 ->
+  run_lines cfg (pre ++ l :: post) 0 false st0 = (ESkip, st2, []).
+Proof. intros Hm Hc Hk. exact (lines_met_skip_run cfg pre 0 false st0 st1 Hm l post st2 Hc Hk). Qed.
+
+(* ... and, with ContinueOnError, as FAILED once a line has failed (the repaired defect) *)
+Theorem skip_after_failure_fails cfg pre l post n st st1 st2 :
+  lines_met cfg pre n true st st1 -> is_comment l = false ->
+  skip_met cfg (at_line (S (n + length pre)) true st1) l st2 ->
+  run_lines cfg (pre ++ l :: post) n true st = (EFail, st2, []).
+Proof. intros Hm Hc Hk. exact (lines_met_skip_run cfg pre n true st st1 Hm l post st2 Hc Hk). Qed.
+
+(* the commands themselves *)
+Lemma stop_cmd_stops cfg args st :
+  length args <= 1 ->
+  cmd_sem cfg (CBuiltin [x73; x74; x6f; x70]) false args st = Done (set_stopped st true).
+Proof.
+  intros H. destruct args as [|a [|b r]]; try reflexivity. simpl in H. lia.
+Qed.
+
+Lemma skip_cmd_skips cfg args st :
+  length args <= 1 -> s_bg st = [] ->
+  cmd_sem cfg (CBuiltin [x73; x6b; x69; x70]) false args st
+  = SkipNow (set_bg (set_outerr (set_bg st []) [] []) []).
+Proof.
+  intros H Hb.
+  assert (cmd_sem cfg (CBuiltin [x73; x6b; x69; x70]) false args st = cmd_skip args st) as -> by reflexivity.
+  unfold cmd_skip, interrupt_all, wait_all. rewrite Hb. simpl.
+  destruct args as [|a [|b r]]; try reflexivity. simpl in H. lia.
+Qed.
+
+(* ---- guards, negation, unknown commands *)
+
+(* guard_false_noop *)
+Theorem guard_false_noop cfg st line words :
+  tokenise (s_env st) line = Some words -> guards_block cfg st words ->
+  run_line cfg st line = Done st.
+Proof. intros Ht Hb. apply demand_met_run. eapply DM_guard; eauto. Qed.
+
+(* neg_flips_exec: for a foreground exec, "!" turns success into failure and failure into
+   success, with the same effects on the state *)
+Theorem neg_flips_exec cfg args st s :
+  fg_args args ->
+  (cmd_exec cfg true args st = Done s <-> cmd_exec cfg false args st = Failed s)
+  /\ (cmd_exec cfg true args st = Failed s <-> cmd_exec cfg false args st = Done s).
+Proof.
+  intros [Hne Hbg]. unfold cmd_exec. destruct args as [|prog rest]; [congruence|].
+  rewrite Hbg. destruct (can_start cfg st prog).
+  - destruct (negb (N.eqb (h_code (helper_run rest (s_in st) (s_env st) (s_cd st) (s_fs st))) 0));
+      simpl; split; split; intros H; inversion H; reflexivity.
+  - split; split; intros H; inversion H; reflexivity.
+Qed.
+
+Lemma exec_is_cmd_exec cfg neg args st :
+  ~ (neg = true /\ In [x65; x78; x65; x63] neg_rejecting_cmds) ->
+  cmd_sem cfg (CBuiltin [x65; x78; x65; x63]) neg args st = cmd_exec cfg neg args st.
+Proof.
+  intros H. simpl. unfold builtin_sem.
+  destruct (neg && mem_bytes [x65; x78; x65; x63] neg_rejecting_cmds) eqn:E.
+  - exfalso. apply H. apply andb_true_iff in E. destruct E as [-> E]. apply mem_bytes_In in E. auto.
+  - reflexivity.
+Qed.
+
+(* unknown_cmd_fails *)
+Theorem unknown_cmd_fails cfg st line words cw neg name args :
+  tokenise (s_env st) line = Some words -> guards_pass cfg st words cw ->
+  split_neg cw = Some (neg, name, args) -> lookup_cmd cfg name = None ->
+  run_line cfg st line = Failed st.
+Proof.
+  intros Ht Hp Hs Hl. unfold run_line. rewrite Ht.
+  destruct words as [|w ws]; [exfalso; eapply guards_pass_nonempty; eauto|].
+  rewrite (guards_pass_run _ _ _ _ Hp), run_neg_split, Hs, Hl. reflexivity.
+Qed.
+
+Lemma lookup_builtin cfg name :
+  In name script_cmd_names -> ~ In name (c_main_cmds cfg) -> lookup_cmd cfg name = Some (CBuiltin name).
+Proof.
+  intros Hin Hm. unfold lookup_cmd.
+  destruct (mem_bytes name (c_main_cmds cfg)) eqn:E; [apply mem_bytes_In in E; tauto|].
+  apply mem_bytes_In in Hin. rewrite Hin. reflexivity.
+Qed.
+
+(* neg_unsupported_fails: for exactly the commands the generated table lists, a line
+   `! cmd ...` whose guards hold fails and changes nothing *)
+Theorem neg_unsupported_fails cfg st line name args :
+  In name neg_rejecting_cmds ->
+  reaches cfg st line true (CBuiltin name) args ->
+  run_line cfg st line = Failed st.
+Proof.
+  intros Hin Hr. rewrite (run_line_reaches _ _ _ _ _ _ Hr). simpl. apply builtin_rejects_neg. exact Hin.
+Qed.
+
+(* every key of the table that rejects "!" is a key of scriptCmds *)
+Lemma neg_rejecting_are_cmds : forall name, In name neg_rejecting_cmds -> In name script_cmd_names.
+Proof.
+  assert (forallb (fun n => mem_bytes n script_cmd_names) neg_rejecting_cmds = true) as H by reflexivity.
+  intros name Hin. rewrite forallb_forall in H. apply mem_bytes_In. apply H. exact Hin.
+Qed.
+
+(* ---- cmd/testscript *)
+
+Theorem cli_exit_iff cfg batch :
+  cli_exit cfg batch = 0%N <->
+  forall j, In j batch -> forall n, r_verdict (run_file cfg (j_work j) (j_env j) (j_file j)) <> Fail n.
+Proof.
+  unfold cli_exit, batch_verdicts.
+  destruct (existsb is_fail _) eqn:E.
+  - split; [discriminate|]. intros H. exfalso.
+    apply existsb_exists in E. destruct E as [v [Hin Hv]].
+    apply in_map_iff in Hin. destruct Hin as [j [Hj Hin]].
+    destruct v; try discriminate. apply (H j Hin line). exact Hj.
+  - split; [|reflexivity]. intros _ j Hin n Hv.
+    assert (existsb is_fail (map (fun j => r_verdict (run_file cfg (j_work j) (j_env j) (j_file j))) batch) = true) as C.
+    { apply existsb_exists. exists (Fail n). split; [|reflexivity].
+      apply in_map_iff. exists j. split; [exact Hv|exact Hin]. }
+    rewrite C in E. discriminate.
+Qed.
+
+Theorem cli_exit_01 cfg batch : cli_exit cfg batch = 0%N \/ cli_exit cfg batch = 1%N.
+Proof. unfold cli_exit. destruct (existsb _ _); auto. Qed.
+
+(* ---- Examples: the hypotheses of the theorems above are satisfiable, on concrete scripts *)
+Module Examples.
+Import String.
+Local Open Scope string_scope.
+Local Open Scope list_scope.
+Definition b (s : string) : bytes := list_byte_of_string s.
+Definition nl : string := String (Ascii.ascii_of_nat 10) EmptyString.
+Definition script (ls : list string) : bytes := List.concat (List.map (fun l => b (String.append l nl)) ls).
+
+Definition cfg0 (coe : bool) : config :=
+  {| c_continue := coe; c_explicit_exec := false; c_unique := false; c_update := false;
+     c_host_conds := [(b "linux", true); (b "windows", false)];
+     c_custom_cond := None; c_cmds := [(b "probe", CProbe)]; c_main_cmds := [b "tshelper"];
+     c_helper := b "tshelper"; c_helper_dir := b "/h"; c_watch := [b "X"] |}.
+Definition env0 : list (bytes * bytes) := [(b "WORK", b "/w"); (b "PATH", b "/h")].
+Definition run (coe : bool) (ls : list string) : run_result :=
+  run_file (cfg0 coe) (b "/w") env0 (script ls).
+
+(* a passing script: guards, negation, the helper, stop in front of a line that would fail *)
+Definition s_pass := ["mkdir d"; "[windows] exists nope"; "! exists nope"; "exec tshelper echo hi";
+                      "stdout ^hi$"; "! exec tshelper exit 3"; "stop"; "exists nope"].
+Example ex_pass : r_verdict (run false s_pass) = Pass.
+Proof. vm_compute. reflexivity. Qed.
+
+(* by verdict_pass_iff the declarative predicate holds of it: all_met is inhabited *)
+Example ex_all_met : exists st0 stF, all_met (cfg0 false) (script_lines (script s_pass)) 0 false st0 stF.
+Proof.
+  destruct (setup (cfg0 false) (b "/w") env0 (parse (script s_pass))) as [st0 ok] eqn:E.
+  assert (ok = true) as -> by (vm_compute in E; inversion E; reflexivity).
+  exists st0. apply verdict_pass_iff.
+  assert (comment (parse (script s_pass)) = script s_pass) as Hc by (vm_compute; reflexivity).
+  pose proof ex_pass as H. unfold run, run_file, run_archive in H. rewrite E in H. rewrite Hc in H. exact H.
+Qed.
+
+(* a failing script: line 2 is the first unmet demand; line 3 leaves no trace *)
+Definition s_fail := ["mkdir d"; "exists nope"; "mkdir e"].
+Example ex_fail : r_verdict (run false s_fail) = Fail 2 /\ r_fail_lines (run false s_fail) = [2]
+  /\ stat (s_fs (r_final (run false s_fail))) (b "/w/d") <> None
+  /\ stat (s_fs (r_final (run false s_fail))) (b "/w/e") = None.
+Proof. vm_compute. repeat split; discriminate. Qed.
+
+(* with ContinueOnError line 3 runs and the run still fails at line 2 *)
+Example ex_continue : r_verdict (run true s_fail) = Fail 2
+  /\ stat (s_fs (r_final (run true s_fail))) (b "/w/e") <> None.
+Proof. vm_compute. split; [reflexivity|discriminate]. Qed.
+
+(* the repaired defect: a failed line followed by skip is a failure, not a skip *)
+Example ex_continue_skip : r_verdict (run true ["exists nope"; "skip"]) = Fail 1.
+Proof. vm_compute. reflexivity. Qed.
+Example ex_skip : r_verdict (run false ["skip"; "exists nope"]) = Skip.
+Proof. vm_compute. reflexivity. Qed.
+
+(* background commands: skip checks the status of what it interrupts *)
+Example ex_bg_skip_fails : r_verdict (run false ["exec tshelper sleep &"; "skip"]) = Fail 2.
+Proof. vm_compute. reflexivity. Qed.
+Example ex_bg_neg_skip : r_verdict (run false ["! exec tshelper sleep &"; "skip"]) = Skip.
+Proof. vm_compute. reflexivity. Qed.
+
+(* unknown command, unknown condition, unsupported negation *)
+Example ex_unknown : r_verdict (run false ["frobnicate"]) = Fail 1
+  /\ r_verdict (run false ["[nosuchcond] mkdir d"]) = Fail 1
+  /\ r_verdict (run false ["! mkdir d"]) = Fail 1.
+Proof. vm_compute. auto. Qed.
+
+(* exit status of cmd/testscript over a batch *)
+Example ex_cli :
+  cli_exit (cfg0 false) [{| j_work := b "/w"; j_env := env0; j_file := script s_pass |};
+                         {| j_work := b "/w"; j_env := env0; j_file := script ["skip"] |}] = 0%N
+  /\ cli_exit (cfg0 false) [{| j_work := b "/w"; j_env := env0; j_file := script s_pass |};
+                            {| j_work := b "/w"; j_env := env0; j_file := script s_fail |}] = 1%N.
+Proof. vm_compute. auto. Qed.
+
+(* fg_args is satisfiable and neg_flips_exec is not vacuous *)
+Example ex_fg_args : fg_args [b "tshelper"; b "exit"; b "3"].
+Proof. split; [discriminate|reflexivity]. Qed.
+End Examples.
